@@ -322,7 +322,7 @@ func whGen(prop string, r *gen.Rand, first bool) *whCase {
 		steps, repos, _ := whPrologue(r, 3)
 		target := repos[r.Intn(len(repos))]
 		if first { // delete-files on a bundle with several file lists (every run)
-			steps = append(steps, whStep{Op: "bigbundle", Repo: target, N: []int{1001, 2000, 1500}[r.Intn(3)], Bundle: -1})
+			steps = append(steps, whStep{Op: "bigbundle", Repo: target, N: []int{1001, 1002, 1003}[r.Intn(3)], Bundle: -1})
 			steps = append(steps, whStep{Op: "delentries", Repo: target, Paths: []string{"big/f00003", "big/f01000", "common.txt"}[:r.Range(1, 3)], Bundle: -1, Judge: true})
 			cs.Steps = steps
 			cs.Sig = "delete-entries-multi-index"
